@@ -59,11 +59,19 @@ class Suite:
     def real(self, case):
         raise NotImplementedError
 
+    def driver_case(self, case):
+        """what is sent to the Lean driver for this case (default: the case itself)"""
+        return case
+
     def model_canon(self, out, case=None):
         return out
 
     def real_canon(self, out, case=None):
         return out
+
+    def agree(self, real_c, model_c):
+        """do the canonicalised outcomes of implementation and model agree (default: equal JSON)"""
+        return canon_json(real_c) == canon_json(model_c)
 
     def oracle(self, case, real_out):
         return None
@@ -349,7 +357,7 @@ class Check:
             reals = [safe_real(suite, c) for c in cases]
             models = [None] * len(cases)
             if suite.corr and self.driver_ok:
-                models = drv.run(suite.driver_suite or suite.name, cases)
+                models = drv.run(suite.driver_suite or suite.name, [suite.driver_case(c) for c in cases])
             for c, r, m in zip(cases, reals, models):
                 st["cases"] += 1
                 total += 1
@@ -371,7 +379,7 @@ class Check:
                         mc = {"bad": m["bad"]}
                     else:
                         mc = suite.model_canon(m["out"], c)
-                        agree = canon_json(mc) == canon_json(suite.real_canon(r, c))
+                        agree = suite.agree(suite.real_canon(r, c), mc)
                     if agree:
                         st["model_agree"] += 1
                     else:
@@ -475,9 +483,9 @@ class Check:
 
         def differs(case):
             rr = safe_real(suite, case)
-            m = drv.run(suite.driver_suite or suite.name, [case])[0]
+            m = drv.run(suite.driver_suite or suite.name, [suite.driver_case(case)])[0]
             mc = {"bad": m["bad"]} if "bad" in m else suite.model_canon(m["out"], case)
-            return canon_json(mc) != canon_json(suite.real_canon(rr, case)), rr, mc
+            return (not suite.agree(suite.real_canon(rr, case), mc)), rr, mc
 
         d, rr, mc = differs(c)
         cur = (c, rr, mc)
@@ -529,10 +537,10 @@ def replay(mod, path):
     print("code outcome :", canon_json(r)[:2000])
     fails = False
     if suite.corr and os.path.exists(DRIVER):
-        m = Driver().run(suite.driver_suite or suite.name, [c])[0]
+        m = Driver().run(suite.driver_suite or suite.name, [suite.driver_case(c)])[0]
         mc = {"bad": m["bad"]} if "bad" in m else suite.model_canon(m["out"], c)
         print("model outcome:", canon_json(mc)[:2000])
-        eq = canon_json(mc) == canon_json(suite.real_canon(r, c))
+        eq = suite.agree(suite.real_canon(r, c), mc)
         print("code = model :", eq)
         if not eq and obj.get("no_longer_checks"):
             fails = True
